@@ -47,7 +47,7 @@ fn strategy(t: Tier) -> BoxedStrategy<AccCase> {
 }
 
 fn parts() -> Vec<Box<dyn PartDyn>> {
-    vec![Box::new(GenPart { name: "accessors", quick: 10_000, thorough: 300_000, shrink_iters: 600, strat: strategy, check })]
+    vec![Box::new(GenPart { name: "accessors", quick: 15_000, thorough: 300_000, shrink_iters: 600, strat: strategy, check })]
 }
 
 fn check(c: &AccCase, st: &mut Stats) -> CheckResult {
